@@ -76,6 +76,7 @@ FOR EACH CHANGE, IN THIS ORDER
                        manifest>", "why_tests_pass": "<why the existing suite does not notice>", "files": ["..."],
                        "kind": "<interleaving|fault|multi-step|unusual-input|two-sites|other>"}}
 5. Restore the worktree to clean (checkout + clean, remove verif_demo_test.go).
+Never use `git stash` (the stash is shared between all worktrees of the repository and other agents work in theirs); to get back to the unchanged library use `git diff > /tmp/wtout/<ID>/wip.diff` and `git checkout -- .`.
 Verify at the end that each patch applies to a clean worktree with `git apply --check`.
 
 If an idea turns out not to break the property, or cannot pass the suite, drop it and try another; report honestly. Your final
